@@ -27,7 +27,7 @@ Local Open Scope string_scope.
     result()/format_exception() afterwards are exactly [expected_api] *)
 Theorem every_run_good : forall w o, good_run w (FS.trace o).
 Proof.
-  intros [ch code look no script prev] o. destruct ch as [ret [e|] | e | ].
+  intros [ch code look no script prev ran] o. destruct ch as [ret [e|] | e | ].
   - apply good_B.
   - apply good_A.
   - apply good_C.
@@ -47,22 +47,31 @@ Proof.
 Qed.
 
 Definition full_record (w : run_world) : list (string * val) :=
-  [run_info w "initialized" VNone VNone; run_info w "running" VNone VNone;
-   run_info w "finished" (spec_result (rw_child w)) (spec_exception (rw_child w))].
+  [rec_initialized w; rec_running w; rec_finished w (spec_result (rw_child w)) (spec_exception (rw_child w))].
 
 Lemma prefix_gen : forall w t d, d_eff d = expected_pubs w t ->
-  (FS.called CS.EndRunHook t = true -> FS.called CS.StartRunHook t = true) ->
-  d_eff d = firstn (1 + (if FS.called CS.StartRunHook t then 1 else 0) + (if FS.called CS.EndRunHook t then 1 else 0)) (full_record w).
+  (hook_ran (rw_ran w) CS.EndRunHook t = true -> hook_ran (rw_ran w) CS.StartRunHook t = true) ->
+  d_eff d = firstn (1 + (if hook_ran (rw_ran w) CS.StartRunHook t then 1 else 0)
+                      + (if hook_ran (rw_ran w) CS.EndRunHook t then 1 else 0)) (full_record w).
 Proof.
   intros w t d H E. rewrite H. unfold expected_pubs, full_record.
-  destruct (FS.called CS.EndRunHook t); destruct (FS.called CS.StartRunHook t); try reflexivity.
+  destruct (hook_ran (rw_ran w) CS.EndRunHook t); destruct (hook_ran (rw_ran w) CS.StartRunHook t); try reflexivity.
   specialize (E eq_refl). discriminate.
 Qed.
 
-Lemma matches_gen : forall w t, good_run w t ->
-  FS.called CS.EndRunHook t = true -> FS.called CS.InitSession t = true -> FS.returned CS.AwaitProcess t = true ->
+Lemma api_gen : forall w t, good_run w t ->
+  FS.called CS.InitSession t = true -> FS.returned CS.AwaitProcess t = true ->
   exists d, data_run w t = Ok d /\
-    In (run_info w "finished" (spec_result (rw_child w)) (spec_exception (rw_child w))) (d_eff d) /\
+    api d "result" = Ok (spec_value (rw_child w)) /\ api d "format_exception" = Ok (spec_exception (rw_child w)).
+Proof.
+  intros w t G Hi Ha. destruct (good_run_elim w t G) as (d & H1 & _ & _ & H3). exists d.
+  specialize (H3 Hi). unfold expected_api in H3. rewrite Ha in H3. cbn [fst snd] in H3. auto.
+Qed.
+
+Lemma matches_gen : forall w t, good_run w t ->
+  hook_ran (rw_ran w) CS.EndRunHook t = true -> FS.called CS.InitSession t = true -> FS.returned CS.AwaitProcess t = true ->
+  exists d, data_run w t = Ok d /\
+    In (rec_finished w (spec_result (rw_child w)) (spec_exception (rw_child w))) (d_eff d) /\
     api d "result" = Ok (spec_value (rw_child w)) /\
     api d "format_exception" = Ok (spec_exception (rw_child w)) /\
     spec_result (rw_child w) = VJson (spec_value (rw_child w)).
@@ -82,52 +91,71 @@ Proof.
   specialize (H3 Hi). unfold expected_api in H3. rewrite Ha in H3. cbn [fst snd] in H3. auto.
 Qed.
 
-(** control alone: on_end_run is reached only after the session was entered, on_start_run was
-    reached and the await of the process returned *)
-Lemma end_implies_all : forall o,
-  negb (FS.called CS.EndRunHook (FS.trace o))
-  || (FS.called CS.StartRunHook (FS.trace o) && FS.called CS.InitSession (FS.trace o) && FS.returned CS.AwaitProcess (FS.trace o)) = true.
+(** control alone (Life/FailStart.v on the regenerated skeleton): on_end_run is reached only
+    after the session was entered, on_start_run RETURNED and the await of the process RETURNED;
+    the await of the process is reached only after on_start_run returned; returned => reached *)
+Lemma control_all : forall o,
+  (negb (FS.called CS.EndRunHook (FS.trace o))
+   || (FS.returned CS.StartRunHook (FS.trace o) && FS.called CS.InitSession (FS.trace o) && FS.returned CS.AwaitProcess (FS.trace o)))
+  && (negb (FS.returned CS.EndRunHook (FS.trace o)) || FS.called CS.EndRunHook (FS.trace o))
+  && (negb (FS.returned CS.StartRunHook (FS.trace o)) || FS.called CS.StartRunHook (FS.trace o))
+  && (negb (FS.called CS.AwaitProcess (FS.trace o))
+      || (FS.returned CS.StartRunHook (FS.trace o) && FS.called CS.InitSession (FS.trace o))) = true.
 Proof.
   intros o.
-  apply (FS.forall_oracles (fun t => negb (FS.called CS.EndRunHook t)
-                                     || (FS.called CS.StartRunHook t && FS.called CS.InitSession t && FS.returned CS.AwaitProcess t))).
+  apply (FS.forall_oracles (fun t =>
+    (negb (FS.called CS.EndRunHook t) || (FS.returned CS.StartRunHook t && FS.called CS.InitSession t && FS.returned CS.AwaitProcess t))
+    && (negb (FS.returned CS.EndRunHook t) || FS.called CS.EndRunHook t)
+    && (negb (FS.returned CS.StartRunHook t) || FS.called CS.StartRunHook t)
+    && (negb (FS.called CS.AwaitProcess t) || (FS.returned CS.StartRunHook t && FS.called CS.InitSession t)))).
   vm_compute. reflexivity.
 Qed.
 
-Lemma bool_facts : forall a b c d : bool,
-  negb a || (b && c && d) = true -> (a = true -> b = true) /\ (a = true -> c = true /\ d = true).
-Proof. intros [|] [|] [|] [|]; simpl; intros H; repeat split; intros; try assumption; try discriminate. Qed.
+Lemma bool_facts : forall cE rE cS rS cI rA cA : bool,
+  (negb cE || (rS && cI && rA)) && (negb rE || cE) && (negb rS || cS) && (negb cA || (rS && cI)) = true ->
+  (forall ran : bool, (if ran then cE else rE) = true -> (if ran then cS else rS) = true /\ cI = true /\ rA = true) /\
+  (cA = true -> rS = true /\ cS = true /\ cI = true) /\
+  (cE = true -> rS = true).
+Proof.
+  intros [|] [|] [|] [|] [|] [|] [|]; simpl; intros H; try discriminate H;
+    (split; [intros [|] X; try discriminate X; repeat split | split; intros X; try discriminate X; repeat split]).
+Qed.
 
 Lemma control_facts : forall o,
-  (FS.called CS.EndRunHook (FS.trace o) = true -> FS.called CS.StartRunHook (FS.trace o) = true) /\
-  (FS.called CS.EndRunHook (FS.trace o) = true ->
-   FS.called CS.InitSession (FS.trace o) = true /\ FS.returned CS.AwaitProcess (FS.trace o) = true).
-Proof. intros o. exact (bool_facts _ _ _ _ (end_implies_all o)). Qed.
+  (forall ran : bool, hook_ran ran CS.EndRunHook (FS.trace o) = true ->
+     hook_ran ran CS.StartRunHook (FS.trace o) = true /\ FS.called CS.InitSession (FS.trace o) = true /\
+     FS.returned CS.AwaitProcess (FS.trace o) = true) /\
+  (FS.called CS.AwaitProcess (FS.trace o) = true ->
+     FS.returned CS.StartRunHook (FS.trace o) = true /\ FS.called CS.StartRunHook (FS.trace o) = true /\
+     FS.called CS.InitSession (FS.trace o) = true) /\
+  (FS.called CS.EndRunHook (FS.trace o) = true -> FS.returned CS.StartRunHook (FS.trace o) = true).
+Proof. intros o. exact (bool_facts _ _ _ _ _ _ _ (control_all o)). Qed.
 
 Lemma quiet_trace_calls :
+  FS.returned CS.StartRunHook (FS.trace []) = true /\ FS.returned CS.EndRunHook (FS.trace []) = true /\
   FS.called CS.StartRunHook (FS.trace []) = true /\ FS.called CS.EndRunHook (FS.trace []) = true /\
   FS.called CS.InitSession (FS.trace []) = true /\ FS.returned CS.AwaitProcess (FS.trace []) = true.
 Proof. vm_compute. repeat split. Qed.
 
 (** ---- (2) the run_info publications of one run *)
 
-(** any await may raise, any outcome: no data statement raises by itself and the publications
-    are exactly [expected_pubs] *)
+(** any await may raise or be cancelled, any outcome: no data statement raises by itself and the
+    publications are exactly [expected_pubs] *)
 Theorem run_info_exact : forall w o,
   exists d, data_run w (FS.trace o) = Ok d /\ d_raised d = None /\ d_eff d = expected_pubs w (FS.trace o).
 Proof.
   intros w o. destruct (good_run_elim w _ (every_run_good w o)) as (d & H1 & H2 & H3 & _). exists d. auto.
 Qed.
 
-(** ... that is: a prefix of the three; `running` is there iff on_start_run was reached,
-    `finished` iff on_end_run was reached; never anything twice; one run number and script *)
+(** ... that is: a prefix of the three; `running` is there iff the implementations of on_start_run
+    ran, `finished` iff those of on_end_run ran; never anything twice; one run number and script *)
 Theorem run_info_prefix : forall w o,
   exists d, data_run w (FS.trace o) = Ok d /\
-    d_eff d = firstn (1 + (if FS.called CS.StartRunHook (FS.trace o) then 1 else 0)
-                        + (if FS.called CS.EndRunHook (FS.trace o) then 1 else 0)) (full_record w).
+    d_eff d = firstn (1 + (if hook_ran (rw_ran w) CS.StartRunHook (FS.trace o) then 1 else 0)
+                        + (if hook_ran (rw_ran w) CS.EndRunHook (FS.trace o) then 1 else 0)) (full_record w).
 Proof.
   intros w o. destruct (run_info_exact w o) as (d & H1 & _ & H3). exists d. split; [exact H1 | ].
-  exact (prefix_gen w _ d H3 (proj1 (control_facts o))).
+  apply (prefix_gen w _ d H3). intros He. exact (proj1 (proj1 (control_facts o) (rw_ran w) He)).
 Qed.
 
 (** no await raises: initialized, running, finished -- each once, under one run number and
@@ -136,54 +164,96 @@ Theorem run_info_once : forall w,
   exists d, data_run w (FS.trace []) = Ok d /\ d_raised d = None /\ d_eff d = full_record w.
 Proof.
   intros w. destruct (run_info_exact w []) as (d & H1 & H2 & H3). exists d. split; [exact H1 | split; [exact H2 | ]].
-  pose proof (prefix_gen w _ d H3 (proj1 (control_facts []))) as H.
-  destruct quiet_trace_calls as (Es & Ee & _). rewrite Es, Ee in H. exact H.
+  rewrite H3. unfold expected_pubs, full_record, hook_ran.
+  destruct quiet_trace_calls as (E1 & E2 & E3 & E4 & _). rewrite E1, E2, E3, E4. destruct (rw_ran w); reflexivity.
 Qed.
 
 (** ---- (3) the finished record carries the outcome of THIS run, and result() /
     format_exception() report the same afterwards *)
 Theorem result_matches : forall w o,
-  FS.called CS.EndRunHook (FS.trace o) = true ->
+  hook_ran (rw_ran w) CS.EndRunHook (FS.trace o) = true ->
   exists d, data_run w (FS.trace o) = Ok d /\
-    In (run_info w "finished" (spec_result (rw_child w)) (spec_exception (rw_child w))) (d_eff d) /\
+    In (rec_finished w (spec_result (rw_child w)) (spec_exception (rw_child w))) (d_eff d) /\
     api d "result" = Ok (spec_value (rw_child w)) /\
     api d "format_exception" = Ok (spec_exception (rw_child w)) /\
     spec_result (rw_child w) = VJson (spec_value (rw_child w)).
 Proof.
-  intros w o He. destruct (proj2 (control_facts o) He) as (Hi & Ha).
+  intros w o He. destruct (proj1 (control_facts o) (rw_ran w) He) as (_ & Hi & Ha).
   exact (matches_gen w _ (every_run_good w o) He Hi Ha).
 Qed.
 
 (** empty when the process died (any exit code), or when spawned.main itself raised *)
 Theorem result_empty_when_died : forall w o,
   rw_child w = ChDied \/ (exists e, rw_child w = ChRaised e) ->
-  FS.called CS.EndRunHook (FS.trace o) = true ->
+  hook_ran (rw_ran w) CS.EndRunHook (FS.trace o) = true ->
   exists d, data_run w (FS.trace o) = Ok d /\
-    In (run_info w "finished" (VJson VNone) (VStr "")) (d_eff d) /\
+    In (rec_finished w (VJson VNone) (VStr "")) (d_eff d) /\
     api d "result" = Ok VNone /\ api d "format_exception" = Ok (VStr "").
 Proof.
   intros w o Hd He. destruct (result_matches w o He) as (d & H1 & H2 & H3 & H4 & _). exists d.
   destruct Hd as [Hd | (e & Hd)]; rewrite Hd in *; auto.
 Qed.
 
-(** the run never got as far as an awaited process (an await before that raised, or the await
-    of the process itself was cancelled): nothing is reported for it *)
+(** the run never got as far as an awaited process: nothing is reported for it *)
 Theorem result_none_when_not_awaited : forall w o,
   FS.called CS.InitSession (FS.trace o) = true -> FS.returned CS.AwaitProcess (FS.trace o) = false ->
   exists d, data_run w (FS.trace o) = Ok d /\ api d "result" = Ok VNone /\ api d "format_exception" = Ok VNone.
 Proof. intros w o Hi Ha. exact (none_gen w _ (every_run_good w o) Hi Ha). Qed.
 
+(** ---- (3') CANCELLATION / an exception at the two awaits that end a run.  In both cases
+    Callback._run still runs `_finish` ([run_finished_set_once_last]): the state becomes
+    `finished` and the waiters return -- but the RECORD of the run is never closed.
+
+    (i) at `await context.running_process` (the await raises -- a CancelledError delivered to the
+    run task, or, before seed C02-4 was excluded by [await_never_raises], its own code): the
+    record stops at `running`; result() / format_exception() report None *)
+Theorem cancelled_at_process_wait : forall w o,
+  FS.called CS.AwaitProcess (FS.trace o) = true -> FS.returned CS.AwaitProcess (FS.trace o) = false ->
+  exists d, data_run w (FS.trace o) = Ok d /\ d_eff d = [rec_initialized w; rec_running w] /\
+    api d "result" = Ok VNone /\ api d "format_exception" = Ok VNone /\
+    FS.called CS.EndRunHook (FS.trace o) = false.
+Proof.
+  intros w o Hc Hr. destruct (proj1 (proj2 (control_facts o)) Hc) as (Hs & Hs' & Hi).
+  destruct (none_gen w _ (every_run_good w o) Hi Hr) as (d & H1 & A1 & A2).
+  destruct (run_info_exact w o) as (d' & H1' & _ & H3). rewrite H1 in H1'. inversion H1'; subst d'.
+  assert (He : FS.called CS.EndRunHook (FS.trace o) = false).
+  { destruct (FS.called CS.EndRunHook (FS.trace o)) eqn:E; [ | reflexivity].
+    destruct (proj1 (control_facts o) true E) as (_ & _ & X). rewrite Hr in X. discriminate X. }
+  assert (Hre : FS.returned CS.EndRunHook (FS.trace o) = false).
+  { destruct (FS.returned CS.EndRunHook (FS.trace o)) eqn:E; [ | reflexivity].
+    destruct (proj1 (control_facts o) false E) as (_ & _ & X). rewrite Hr in X. discriminate X. }
+  exists d. split; [exact H1 | ]. split; [ | auto].
+  rewrite H3. unfold expected_pubs, hook_ran. rewrite Hs, Hs', He, Hre. destruct (rw_ran w); reflexivity.
+Qed.
+
+(** (ii) inside `_on_end_run`, at `await context.hook.ahook.on_end_run(...)`: when the
+    implementations had not had their first step ([rw_ran w = false]: cancellation), the record
+    stops at `running` although result() / format_exception() already report the outcome; when
+    they had run (a user plugin raised afterwards), the record is closed ([result_matches]) *)
+Theorem cancelled_in_on_end_run : forall w o,
+  FS.called CS.EndRunHook (FS.trace o) = true -> FS.returned CS.EndRunHook (FS.trace o) = false -> rw_ran w = false ->
+  exists d, data_run w (FS.trace o) = Ok d /\ d_eff d = [rec_initialized w; rec_running w] /\
+    api d "result" = Ok (spec_value (rw_child w)) /\ api d "format_exception" = Ok (spec_exception (rw_child w)).
+Proof.
+  intros w o Hc Hr Hran. destruct (proj1 (control_facts o) true Hc) as (_ & Hi & Ha).
+  pose proof (proj2 (proj2 (control_facts o)) Hc) as Hs.
+  destruct (api_gen w _ (every_run_good w o) Hi Ha) as (d & H1 & A1 & A2).
+  destruct (run_info_exact w o) as (d' & H1' & _ & H3). rewrite H1 in H1'. inversion H1'; subst d'.
+  exists d. split; [exact H1 | ]. split; [ | auto].
+  rewrite H3. unfold expected_pubs, hook_ran. rewrite Hran, Hs, Hr. reflexivity.
+Qed.
+
 (** ---- (4) awaiting the process handle: RunningProcess.__await__ with _log_exited, for
     EVERY result (a, b) of the task, EVERY exit code, in the dict or not: it does not raise and
     yields ExitedProcess(returned=a, raised=b)  (Proc/Model.v: [Yields (mkExited a b ..)]) *)
 Definition await_handle (a b : val) (code : Z) (look : bool) : res val :=
-  let h := handle_of (VTuple [a; b]) code in
-  p <- eval prog (mkWorld h look) FUEL (mkCfg [("h", h)] [] []) (EAwaitHandle (EName "h")) ;; Ok (fst p).
+  h <- handle_of (VTuple [a; b]) code ;;
+  p <- eval prog (mkWorld h look true) FUEL (mkCfg [("h", h)] [] []) (EAwaitHandle (EName "h")) ;; Ok (fst p).
 
 Theorem await_never_raises : forall a b code look,
   await_handle a b code look =
-  Ok (VObj "ExitedProcess" [("returned", a); ("raised", b);
-                            ("process", VObj "Process" [("exitcode", VInt code); ("pid", VInt 4242)])]).
+  Ok (VObj "ExitedProcess" [("returned", a); ("raised", b); ("process", process_of code);
+                            ("process_created_at", VTime true); ("process_exited_at", VTime true)]).
 Proof.
   intros a b code look. destruct code as [|p|p]; [ | destruct look | destruct look ]; vm_compute; reflexivity.
 Qed.
@@ -242,14 +312,17 @@ Definition prog_indexing : rprogram :=
             funcs session (p_plugins prog) (p_dict_values_truthy prog).
 
 Example indexing_would_raise :
-  (let h := handle_of (VTuple [VNone; VNone]) 3 in
-   eval prog_indexing (mkWorld h false) FUEL (mkCfg [("h", h)] [] []) (EAwaitHandle (EName "h"))) = Exn XKey
+  (h <- handle_of (VTuple [VNone; VNone]) 3 ;;
+   eval prog_indexing (mkWorld h false true) FUEL (mkCfg [("h", h)] [] []) (EAwaitHandle (EName "h"))) = Exn XKey
   /\ await_handle VNone VNone 3 false <> Exn XKey.
 Proof. split; [vm_compute; reflexivity | vm_compute; discriminate]. Qed.
 
 (** ---- the two translators agree on where the data statements sit: the control points of
     Gen/RunRecord.session are, in this order, the ones of Gen/CallbackSkeleton.session_skeleton,
-    and a continuation ([Returned]) is attached to an await *)
+    and a continuation ([Returned]) is attached to an await.
+    LABEL: an agreement between two regenerated artefacts (both sides change with the source); the
+    MEANING of a control point ([pos_of], [stmts_at] in Life/RecordRun.v: which data statements
+    run at which act, what `SetRunArgNone` and `Finish` stand for) is hand-written. *)
 Fixpoint acts_of (s : CS.stmt) : list (CS.act * bool) :=
   match s with
   | CS.Seq a b | CS.TryFinally a b => acts_of a ++ acts_of b
@@ -344,7 +417,9 @@ Proof.
   - intros o set. destruct o as [|[|] r]; vm_compute; reflexivity.
 Qed.
 
-(** this translation of Callback and translate/callback_skeleton.py agree *)
+(** this translation of Callback and translate/callback_skeleton.py agree.
+    LABEL: agreement of two regenerated artefacts through the hand-written dictionary [erase1]
+    (attribute names -> acts of the skeleton); callback_skeleton itself is a pin of leaf statements. *)
 Definition erase1 (er : list cstmt -> option CS.stmt) (s : cstmt) : option CS.stmt :=
   match s with
   | CbNewEvent t => if strs_eqb t ["self"; "_run_finished"] then Some (CS.Act CS.NewRunFinished)
@@ -388,7 +463,12 @@ Theorem run_finished_set_once_last : forall o,
   FS.run_arg_withdrawn_before_finished (FS.trace o) = true /\ FS.nothing_after_finished (FS.trace o) = true.
 Proof. intros o. split; [apply FailStartProofs.run_arg_withdrawn | apply FailStartProofs.no_hook_after_finished]. Qed.
 
-(** ---- tie to Life/Model.v: how the model publishes run_info and stores the result *)
+(** ---- tie to Life/Model.v: how the model publishes run_info and stores the result.
+    LABEL: [model_initialized/running/finished] are facts about the hand-written model (by
+    computation); [abs_pub] is a hand-written abstraction; [model_simulation] is a simulation of
+    ONE quiet run (the three publishing steps), not an induction over label lists: the model has
+    no label for a raising / cancelled await -- those runs are covered on the code side only
+    ([every_run_good], [cancelled_at_process_wait], [cancelled_in_on_end_run]). *)
 Definition ri_of (l : list M.event) : list M.pub :=
   flat_map (fun e => match e with M.EvPub (M.PRunInfo n ph st r) => [M.PRunInfo n ph st r] | _ => [] end) l.
 
@@ -438,7 +518,7 @@ Lemma abs_full_record : forall w sid o,
   [Some (M.PRunInfo (rw_no w) M.RInitialized (sid (script_val w)) None);
    Some (M.PRunInfo (rw_no w) M.RRunning (sid (script_val w)) None);
    Some (M.PRunInfo (rw_no w) M.RFinished (sid (script_val w)) (Some o))].
-Proof. intros w sid o. destruct w as [ch code look no script prev]. destruct ch as [ret [e|] | e | ]; reflexivity. Qed.
+Proof. intros w sid o. destruct w as [ch code look no script prev ran]. destruct ch as [ret [e|] | e | ]; reflexivity. Qed.
 
 (** SIMULATION of one run: the publications of the regenerated code, seen through [abs_pub], are
     exactly the run_info publications that the model's initialize_run, its RT_Created step and
@@ -456,12 +536,14 @@ Theorem model_simulation : forall w sid o (s1 s2 s3 : M.state) ra,
        hd_error (ri_of (M.trace (M.do_step_run s2)));
        hd_error (ri_of (M.trace (M.do_step_run s3)))] /\
     M.exited_proc (M.do_step_run s3) = Some o /\
-    exists res exc, nth_error (d_eff d) 2 = Some (run_info w "finished" res exc) /\
+    exists res exc, nth_error (d_eff d) 2 = Some (rec_finished w res exc) /\
       api d "format_exception" = Ok exc /\ (r <- api d "result" ;; Ok (VJson r)) = Ok res.
 Proof.
   intros w sid o s1 s2 s3 ra Hn Hs A1 A2 B1 B2 C1 C2 C3 C4.
   destruct (run_info_once w) as (d & H1 & _ & H3).
-  destruct (result_matches w [] (proj1 (proj2 quiet_trace_calls))) as (d' & H1' & _ & R1 & R2 & R3).
+  assert (Hq : hook_ran (rw_ran w) CS.EndRunHook (FS.trace []) = true).
+  { unfold hook_ran. destruct quiet_trace_calls as (_ & E2 & _ & E4 & _). rewrite E2, E4. destruct (rw_ran w); reflexivity. }
+  destruct (result_matches w [] Hq) as (d' & H1' & _ & R1 & R2 & R3).
   rewrite H1 in H1'. inversion H1'; subst d'. clear H1'.
   exists d. split; [exact H1 | ]. split; [ | split].
   - rewrite H3, abs_full_record, model_initialized, (model_running s2 ra B1 B2).
@@ -473,18 +555,29 @@ Qed.
 
 (** non-vacuity: a concrete world (the process died with exit code 3, os._exit(3)) *)
 Example example_died_exit_3 :
-  let w := mkRun ChDied 3 false 1 (Some "import os; os._exit(3)") VNone in
+  let w := mkRun ChDied 3 false 1 (Some "import os; os._exit(3)") VNone true in
   (d <- data_run w (FS.trace []) ;; r <- api d "result" ;; f <- api d "format_exception" ;; Ok (d_eff d, r, f))
-  = Ok ([run_info w "initialized" VNone VNone; run_info w "running" VNone VNone;
-         run_info w "finished" (VJson VNone) (VStr "")], VNone, VStr "").
+  = Ok ([rec_initialized w; rec_running w; rec_finished w (VJson VNone) (VStr "")], VNone, VStr "").
 Proof. vm_compute. reflexivity. Qed.
 
 (** ... and an interrupted run whose process wait is itself cancelled (oracle: the await of the
     process raises): the record stops at `running`, nothing is reported *)
 Example example_wait_cancelled :
-  let w := mkRun ChDied (-2) true 1 None VNone in
+  let w := mkRun ChDied (-2) true 1 None VNone false in
   let t := FS.trace [false; false; false; true] in
-  FS.returned CS.AwaitProcess t = false /\
+  FS.called CS.AwaitProcess t = true /\ FS.returned CS.AwaitProcess t = false /\
   (d <- data_run w t ;; f <- api d "format_exception" ;; Ok (d_eff d, f))
-  = Ok ([run_info w "initialized" VNone VNone; run_info w "running" VNone VNone], VNone).
-Proof. vm_compute. split; reflexivity. Qed.
+  = Ok ([rec_initialized w; rec_running w], VNone).
+Proof. vm_compute. repeat split; reflexivity. Qed.
+
+(** ... and a cancellation inside `_on_end_run` before the hook implementations had a step
+    (oracle: the 8th await -- on_end_run -- raises; [rw_ran] false): the outcome is reported by
+    result()/format_exception() but the record stays at `running` *)
+Example example_cancelled_in_on_end_run :
+  let w := mkRun (ChReturned (VOpaque 5) None) 0 false 1 None VNone false in
+  let t := FS.trace [false; false; false; false; false; false; false; true] in
+  FS.called CS.EndRunHook t = true /\ FS.returned CS.EndRunHook t = false /\
+  FS.count CS.SetRunFinished (FS.acts t) = 1%nat /\
+  (d <- data_run w t ;; r <- api d "result" ;; Ok (d_eff d, r))
+  = Ok ([rec_initialized w; rec_running w], VOpaque 5).
+Proof. vm_compute. repeat split; reflexivity. Qed.
